@@ -198,11 +198,41 @@ func (l *Lang) summary(a *Action) string {
 			us = append(us, ev.Kind+"("+strings.Join(as, ", ")+")")
 		}
 		sort.Strings(us)
-		cond := strings.Join(p.St.Conds, " && ")
-		ps = append(ps, "["+cond+"] "+s+" | "+strings.Join(us, "; "))
+		ps = append(ps, "["+p.St.condSummary()+"] "+s+" | "+strings.Join(us, "; "))
 	}
 	sort.Strings(ps)
 	return strings.Join(ps, "\n")
+}
+
+// condSummary: what the path assumes, independent of how the action spells and
+// orders its tests: the facts about values, then the conditions that are not facts.
+func (s *State) condSummary() string {
+	var fs []string
+	for k, f := range s.Facts {
+		var ps []string
+		if f.Nil != nil {
+			ps = append(ps, map[bool]string{true: "nil", false: "set"}[*f.Nil])
+		}
+		if f.Type != "" {
+			ps = append(ps, "is "+f.Type)
+		}
+		nt := append([]string(nil), f.NotTyp...)
+		sort.Strings(nt)
+		for _, t := range nt {
+			if f.Type == "" {
+				ps = append(ps, "not "+t)
+			}
+		}
+		if f.LenGt0 != nil {
+			ps = append(ps, map[bool]string{true: "non-empty", false: "empty"}[*f.LenGt0])
+		}
+		if len(ps) > 0 {
+			fs = append(fs, k+" "+strings.Join(ps, ","))
+		}
+	}
+	fs = append(fs, s.Opaque...)
+	sort.Strings(fs)
+	return strings.Join(fs, " && ")
 }
 
 // normalise the names that legitimately differ between the two packages
